@@ -1,6 +1,7 @@
 """Literal-table / fragment rules K3-K11, B4, E1, E2 (C14, C16, C17, C18, C19)."""
 from __future__ import annotations
 import ast
+import copy
 import itertools
 from . import consteval, pyfacts, spec
 from .consteval import CE, Mat, Instance, Recorder, CERaise
@@ -1124,9 +1125,23 @@ def K18_dimension_formula(rep, flow: Flow):
         if isinstance(a, ast.Assign) and isinstance(a.targets[0], ast.Name) and isinstance(a.value, ast.Subscript) and isinstance(a.value.value, ast.Attribute) and a.value.value.attr == "shape" \
                 and isinstance(a.value.slice, ast.Constant) and a.value.slice.value == 1:
             cols = a.targets[0].id
+    derived = {}        # locals computed from the pivot list / column count alone, in statement order: name -> expression
     for st in g.node.body:
+        if isinstance(st, ast.Assign) and len(st.targets) == 1 and isinstance(st.targets[0], ast.Name) and piv is not None and cols is not None:
+            nm_ = {x.id for x in ast.walk(st.value) if isinstance(x, ast.Name)} - {"len", "np", "range", "set", "sorted", "list", "tuple", "int", "bool"}
+            if nm_ and nm_ <= ({piv, cols} | set(derived)) and st.targets[0].id not in (piv, cols):
+                derived[st.targets[0].id] = st.value
         if not (isinstance(st, ast.If) and any(isinstance(x, ast.Return) for x in st.body)):
             continue
+        if derived and any(isinstance(x, ast.Name) and x.id in derived for x in ast.walk(st.test)):
+            # substitute the derived locals (innermost last) so that the guard speaks about the pivot list and the column count
+            class _Sub(ast.NodeTransformer):
+                def visit_Name(self, node):
+                    if isinstance(node.ctx, ast.Load) and node.id in derived:
+                        return self.visit(copy.deepcopy(derived[node.id]))
+                    return node
+            st = copy.copy(st)
+            st.test = ast.fix_missing_locations(_Sub().visit(copy.deepcopy(st.test)))
         ret = next(x for x in st.body if isinstance(x, ast.Return))
         v = ret.value
         empty = isinstance(v, ast.Call) and ast.unparse(v.func) in ("np.zeros", "np.empty") and v.args and isinstance(v.args[0], (ast.Tuple, ast.List)) and len(v.args[0].elts) == 2 \
